@@ -692,6 +692,8 @@ def sx_call(f, *a, **k):
         alt = getattr(RX.FakeRe, f.__name__, None)
         if alt is not None and _deep_sym_in(a):
             return alt(*a, **k)
+    if f is print and _deep_sym_in(a):
+        return None  # console output is not part of any kernel
     if f is _real_str or f is str:
         if t0 is SymStr:
             return a0
@@ -907,6 +909,9 @@ def sx_contains(container, item):
 
 
 def sx_fstr(*parts):
+    if any(kind and hasattr(type(p), "_sx_str_") for kind, p, conv, spec in parts):
+        # path-like stand-ins (memfs.SPath, props.c07._FakePath) render through their own symbolic text
+        parts = tuple((kind, (p._sx_str_() if (kind and hasattr(type(p), "_sx_str_")) else p), conv, spec) for kind, p, conv, spec in parts)
     anysym = False
     for kind, p, conv, spec in parts:
         if kind and type(p) is SymStr and not p.is_concrete():
